@@ -428,11 +428,11 @@ Definition find_oofs_any (other : N) (l : list oofile) :=
   find (fun o => of_other o =? other) l.
 Definition find_oofs_oh (owner h : N) (l : list oofile) :=
   find (fun o => of_live o && (of_owner o =? owner) && (of_handle o =? h)) l.
-(* Entries without references (not in the maps, no I/O in flight) are garbage. *)
-Definition o_garbage (o : oofile) := negb (of_live o) && (of_readers o =? 0) && (of_writers o =? 0).
+(* Entries that left the maps stay in the list (of_live = false): I/O in
+   flight may still refer to them; once their counts are zero they are
+   inert (in Go: garbage). *)
 Definition upd_oofs (o' : oofile) (l : list oofile) : list oofile :=
-  filter (fun o => negb (o_garbage o))
-         (map (fun o => if of_other o =? of_other o' then o' else o) l).
+  map (fun o => if of_other o =? of_other o' then o' else o) l.
 
 Definition find_lofs (other : N) (l : list oofile) : option (oofile * lofile) :=
   match find (fun o => of_live o && existsb (fun lf => lf_other lf =? other) (of_lofs o)) l with
@@ -647,6 +647,20 @@ Definition op_exchange_id (owner verifier : N) (st0 : state) : state * list out 
 Definition fresh_slots (n : N) : list slot :=
   repeat (mkSlot 0 (seq_error ERR_SEQ_MISORDERED) None) (N.to_nat n).
 
+(* cis.hold() followed, at the end of the same critical section, by the
+   deferred cis.release(p): for an incarnation that is idle this moves it
+   to the tail of the idle list with lastSeen = now; for one that is held
+   by compounds in flight it has no net effect. *)
+Definition touch (id : N) (st : state) : state :=
+  match find_client id (st_clients st) with
+  | Some c =>
+    if c_hold c =? 0
+    then set_idle (set_clients st (upd_client (c_set_hold c 0 (st_now st)) (st_clients st)))
+                  (idle_remove id (st_idle st) ++ [id])
+    else st
+  | None => st
+  end.
+
 (* CREATE_SESSION, after a possible other confirmed incarnation has been
    dealt with: confirm, allocate the session, cache the response, release. *)
 Definition cs_finish (cid sq : N) (st1 : state) : state * opres :=
@@ -659,7 +673,7 @@ Definition cs_finish (cid sq : N) (st1 : state) : state * opres :=
   let st5 := match find_client cid (st_clients st4) with
              | Some c2 => set_clients st4 (upd_client (c_set_cs c2 sq (Some (sess, sq))) (st_clients st4))
              | None => st4 end in
-  (release cid st5, RCreateSession sess sq).
+  (touch cid st5, RCreateSession sess sq).
 
 Definition op_create_session (cid sq : N) (st0 : state) : state * list out * opres :=
   let '(st, outs) := enter st0 in
@@ -672,19 +686,18 @@ Definition op_create_session (cid sq : N) (st0 : state) : state * list out * opr
                  | None => RStatus OP_CREATE_SESSION ERR_SEQ_MISORDERED
                  end)
     else if sq =? (c_seq c + 1) mod u32 then
-      let st1 := hold cid st in
       let other := find (fun x => (c_owner x =? c_owner c) && c_confirmed x && negb (c_id x =? cid))
-                        (st_clients st1) in
+                        (st_clients st) in
       match other with
       | Some x =>
         if 0 <? c_hold x then
-          (release cid st1, outs, RStatus OP_CREATE_SESSION ERR_DELAY)
+          (touch cid st, outs, RStatus OP_CREATE_SESSION ERR_DELAY)
         else
-          let '(st2, outs2) := empty_and_remove (c_id x) st1 in
+          let '(st2, outs2) := empty_and_remove (c_id x) st in
           let '(st3, r) := cs_finish cid sq st2 in
           (st3, outs ++ outs2, r)
       | None =>
-        let '(st3, r) := cs_finish cid sq st1 in (st3, outs, r)
+        let '(st3, r) := cs_finish cid sq st in (st3, outs, r)
       end
     else (st, outs, RStatus OP_CREATE_SESSION ERR_SEQ_MISORDERED)
   end.
@@ -925,66 +938,71 @@ Definition io_end_reg (opnum other h : N) (m : mask) (iost : N) (c : client) (st
   | None => mkSec (add_panic st true) cfh sfh (Done (RStatus opnum iost)) [] FsNone
   end.
 
+(* LOCK once the open-owner file [o], the existing lock-owner file [lfo],
+   the identity [oid] of the lock-owner object and, if that object is
+   new, its entry [reg] for lockOwnersByOwner are known. *)
+Definition op_lock_run (ltype off len : N) (c : client) (st : state) (cfh sfh : fh)
+    (o : oofile) (lfo : option lofile) (oid : N) (reg : option lowner) : secres :=
+  let fail st' := done st cfh sfh (RStatus OP_LOCK st') in
+  match LS.offset_length_to_start_end off len with
+  | None => fail ERR_INVAL
+  | Some (s, e) =>
+    match lock_type ltype with
+    | None => fail ERR_INVAL
+    | Some ty =>
+      let q := LS.mkLock s e oid ty in
+      let locks := pool_locks (of_handle o) (st_pool st) in
+      match LS.test locks q with
+      | Some cf => done st cfh sfh (denied_of OP_LOCK (st_clients st) cf)
+      | None =>
+        let r := LS.set locks q in
+        let pool1 := pool_set_locks (of_handle o) (LS.set_list r) (st_pool st) in
+        let '(lows1, nextlo1) :=
+          match reg with
+          | Some x => (c_lowners c ++ [x], st_nextlo st + 1)
+          | None => (c_lowners c, st_nextlo st)
+          end in
+        (* Lock-owner file: create if needed. *)
+        let '(lf, o1, lows2, other1, pn1) :=
+          match lfo with
+          | Some lf => (lf, o, lows1, c_other c, false)
+          | None =>
+            let '(rd, wr, pn) := sc_clone (of_readers o) (of_writers o) (of_share o) in
+            let lf := mkLof (c_other c + 1) 0 oid (of_share o) 0 in
+            (lf, o_set o (of_seq o) (of_share o) rd wr (of_lofs o ++ [lf]) (of_live o),
+             lowner_inc oid lows1, c_other c + 1, pn)
+          end in
+        let cnt := (lf_count lf + LS.set_delta r)%Z in
+        let lf1 := l_set lf (incr_seq (lf_seq lf)) cnt in
+        let o2 := o_set o1 (of_seq o1) (of_share o1) (of_readers o1) (of_writers o1)
+                        (upd_lofs lf1 (of_lofs o1)) (of_live o1) in
+        let c1 := c_set_other (c_set_lowners (c_set_oofs c (upd_oofs o2 (c_oofs c))) lows2) other1 in
+        let st1 := add_panic (set_nextlo (set_pool (with_client st (c_id c) c1) pool1) nextlo1)
+                             (pn1 || (cnt <? 0)%Z || LS.set_panic r) in
+        mkSec st1 (mkFh (f_node cfh) (lf_seq lf1) (lf_other lf1)) sfh
+              (Done (RStateid OP_LOCK (lf_seq lf1) (lf_other lf1))) [] FsNone
+      end
+    end
+  end.
+
 Definition op_lock (ltype off len : N) (lk : locker) (c : client) (st : state) (cfh sfh : fh)
     : secres :=
   let fail st' := done st cfh sfh (RStatus OP_LOCK st') in
-  (* [o]: open-owner file; [lfo]: existing lock-owner file; [oid]: identity
-     of the lock-owner object; [reg]: the entry to add to
-     lockOwnersByOwner if the object is new. *)
-  let run (o : oofile) (lfo : option lofile) (oid : N) (reg : option lowner) :=
-    match LS.offset_length_to_start_end off len with
-    | None => fail ERR_INVAL
-    | Some (s, e) =>
-      match lock_type ltype with
-      | None => fail ERR_INVAL
-      | Some ty =>
-        let q := LS.mkLock s e oid ty in
-        let locks := pool_locks (of_handle o) (st_pool st) in
-        match LS.test locks q with
-        | Some cf => done st cfh sfh (denied_of OP_LOCK (st_clients st) cf)
-        | None =>
-          let r := LS.set locks q in
-          let pool1 := pool_set_locks (of_handle o) (LS.set_list r) (st_pool st) in
-          let '(lows1, nextlo1) :=
-            match reg with
-            | Some x => (c_lowners c ++ [x], st_nextlo st + 1)
-            | None => (c_lowners c, st_nextlo st)
-            end in
-          (* Lock-owner file: create if needed. *)
-          let '(lf, o1, lows2, other1, pn1) :=
-            match lfo with
-            | Some lf => (lf, o, lows1, c_other c, false)
-            | None =>
-              let '(rd, wr, pn) := sc_clone (of_readers o) (of_writers o) (of_share o) in
-              let lf := mkLof (c_other c + 1) 0 oid (of_share o) 0 in
-              (lf, o_set o (of_seq o) (of_share o) rd wr (of_lofs o ++ [lf]) (of_live o),
-               lowner_inc oid lows1, c_other c + 1, pn)
-            end in
-          let cnt := (lf_count lf + LS.set_delta r)%Z in
-          let lf1 := l_set lf (incr_seq (lf_seq lf)) cnt in
-          let o2 := o_set o1 (of_seq o1) (of_share o1) (of_readers o1) (of_writers o1)
-                          (upd_lofs lf1 (of_lofs o1)) (of_live o1) in
-          let c1 := c_set_other (c_set_lowners (c_set_oofs c (upd_oofs o2 (c_oofs c))) lows2) other1 in
-          let st1 := add_panic (set_nextlo (set_pool (with_client st (c_id c) c1) pool1) nextlo1)
-                               (pn1 || (cnt <? 0)%Z || LS.set_panic r) in
-          mkSec st1 (mkFh (f_node cfh) (lf_seq lf1) (lf_other lf1)) sfh
-                (Done (RStateid OP_LOCK (lf_seq lf1) (lf_other lf1))) [] FsNone
-        end
-      end
-    end in
   match lk with
   | LockerNew osid key =>
     match get_oofs c cfh osid false with
     | (Some o, 0) =>
       match find_lowner_key key (c_lowners c) with
-      | Some x => run o (find (fun lf => lf_owner lf =? lo_id x) (of_lofs o)) (lo_id x) None
-      | None => run o None (st_nextlo st) (Some (mkLow (st_nextlo st) key 0))
+      | Some x => op_lock_run ltype off len c st cfh sfh o
+                              (find (fun lf => lf_owner lf =? lo_id x) (of_lofs o)) (lo_id x) None
+      | None => op_lock_run ltype off len c st cfh sfh o None (st_nextlo st)
+                            (Some (mkLow (st_nextlo st) key 0))
       end
     | (_, st') => fail st'
     end
   | LockerExisting lsid =>
     match get_lofs c cfh lsid with
-    | (Some (o, lf), 0) => run o (Some lf) (lf_owner lf) None
+    | (Some (o, lf), 0) => op_lock_run ltype off len c st cfh sfh o (Some lf) (lf_owner lf) None
     | (_, st') => fail st'
     end
   end.
@@ -1272,11 +1290,17 @@ Inductive event :=
 | ESeqBegin (tid sess slot seq : N) (cache : bool) (ops : list op)
 | ESection (tid : N) (orc : fsres).
 
+(* Compound identifiers are labels chosen by the environment; a label that
+   is still in use (compound in flight or waiting) is not accepted again. *)
+Definition tid_used (tid : N) (st : state) : bool :=
+  existsb (fun t => (t_id t =? tid) || existsb (N.eqb tid) (t_waiters t)) (st_threads st).
+
 Definition step (st : state) (e : event) : state * list out :=
   match e with
   | EAdvance d => (set_clock st (st_clock st + d), [])
   | ESolo tid s => solo_step tid s st
-  | ESeqBegin tid sess sl sq cache ops => seq_begin tid sess sl sq cache ops st
+  | ESeqBegin tid sess sl sq cache ops =>
+    if tid_used tid st then (st, []) else seq_begin tid sess sl sq cache ops st
   | ESection tid orc => let '(st1, outs, _) := section tid orc st in (st1, outs)
   end.
 
